@@ -14,6 +14,7 @@ import (
 	"sort"
 	"strings"
 	"syscall"
+	"time"
 	"testing"
 
 	"github.com/sourcegraph/zoekt"
@@ -359,6 +360,8 @@ func TestVerifC15(t *testing.T) {
 		tmp = t.TempDir()
 	}
 	fifoOK := true
+	var tIndex time.Duration
+	defer func() { vfInfo(map[string]any{"seconds_in_indexArg": tIndex.Seconds()}) }()
 	for i := 0; i < n; i++ {
 		caseDir, err := os.MkdirTemp(tmp, "c15d-")
 		if err != nil {
@@ -377,8 +380,47 @@ func TestVerifC15(t *testing.T) {
 		// ---- the ignore file, in one of several shapes
 		var lines []string
 		np := r.Intn(5)
+		var genPaths []string
+		{
+			a, b := 0, 0
+			vfC15AllPaths("", ch, &genPaths, &a, &b)
+		}
 		for j := 0; j < np; j++ {
-			lines = append(lines, r.Pick(vfC15Patterns))
+			if len(genPaths) == 0 || r.Chance(35) {
+				lines = append(lines, r.Pick(vfC15Patterns))
+				continue
+			}
+			// a pattern derived from a path of the tree, so that ignore rules are in effect often
+			p := genPaths[r.Intn(len(genPaths))]
+			base := p[strings.LastIndex(p, "/")+1:]
+			switch r.Intn(7) {
+			case 0:
+				lines = append(lines, p)
+			case 1:
+				lines = append(lines, "/"+p)
+			case 2:
+				if k := strings.LastIndex(p, "/"); k >= 0 {
+					lines = append(lines, p[:k]+"/")
+				} else {
+					lines = append(lines, p+"/")
+				}
+			case 3:
+				lines = append(lines, "**/"+base)
+			case 4:
+				if k := strings.LastIndex(base, "."); k > 0 {
+					lines = append(lines, "**/*"+base[k:])
+				} else {
+					lines = append(lines, base+"*")
+				}
+			case 5:
+				if k := strings.Index(p, "/"); k >= 0 {
+					lines = append(lines, p[:k]+"/*")
+				} else {
+					lines = append(lines, "?"+base[1:])
+				}
+			default:
+				lines = append(lines, "  "+p+"\t")
+			}
 		}
 		igContent := strings.Join(lines, "\n")
 		if len(lines) > 0 && r.Bool() {
@@ -459,14 +501,20 @@ func TestVerifC15(t *testing.T) {
 		}
 		indexDir := filepath.Join(caseDir, "idx")
 		os.MkdirAll(indexDir, 0o755)
-		opts := index.Options{IndexDir: indexDir, SizeMax: sizeMax, DisableCTags: true, Parallelism: 1 + r.Intn(2),
+		shardMax := 1 << 14 // (the default of 100 MB makes every builder pre-size a huge postings map)
+		if r.Chance(15) {
+			shardMax = 60 + r.Intn(100) // several shards
+		}
+		opts := index.Options{IndexDir: indexDir, SizeMax: sizeMax, ShardMax: shardMax, DisableCTags: true, Parallelism: 1 + r.Intn(2),
 			RepositoryDescription: zoekt.Repository{Name: "repo", Branches: branches}}
 		opts.SetDefaults()
 		arg := root
 		if r.Chance(20) {
 			arg = root + "/./" // indexArg cleans its argument
 		}
+		t0 := time.Now()
 		code, msg := vfC15RunIndexArg(arg, opts, igd)
+		tIndex += time.Since(t0)
 		var docs []vfC15Doc
 		if code == 0 {
 			docs, err = vfC15ReadShards(indexDir)
